@@ -11,7 +11,8 @@ use sha2::{Digest, Sha256};
 
 use crate::message::{
     header::{HeaderName, HeaderValue},
-    Headers, Message,
+    mimebody::Part,
+    Headers, Message, MessageBody,
 };
 
 /// Describe Dkim Canonicalization to apply to either body or headers
@@ -327,9 +328,23 @@ fn dkim_canonicalize_headers<'a>(
     mail_headers: &Headers,
     canonicalization: DkimCanonicalizationType,
 ) -> String {
+    dkim_canonicalize_all_headers(headers_list, mail_headers, None, canonicalization)
+}
+
+/// Like [`dkim_canonicalize_headers`], for a message whose header section
+/// continues with the fields of its MIME body (`Content-Type`, ...)
+fn dkim_canonicalize_all_headers<'a>(
+    headers_list: impl IntoIterator<Item = &'a str>,
+    mail_headers: &Headers,
+    part_headers: Option<&Headers>,
+    canonicalization: DkimCanonicalizationType,
+) -> String {
     let mut covered_headers = Headers::new();
     for name in headers_list {
-        if let Some(h) = mail_headers.find_header(name) {
+        let found = mail_headers
+            .find_header(name)
+            .or_else(|| part_headers.and_then(|headers| headers.find_header(name)));
+        if let Some(h) = found {
             // The name as it is written in the message, not as the
             // configuration spells it: "simple" presents the field unchanged
             let name = dkim_canonicalize_header_tag(h.get_name(), canonicalization);
@@ -382,9 +397,16 @@ fn dkim_sign_fixed_time(message: &mut Message, dkim_config: &DkimConfig, timesta
         signed_headers_list.make_ascii_lowercase();
     }
     let dkim_header = dkim_header_format(dkim_config, timestamp, &signed_headers_list, &bh, "");
-    let signed_headers = dkim_canonicalize_headers(
+    // The fields of a MIME body are part of the message's header section too
+    let part_headers = match &message.body {
+        MessageBody::Mime(Part::Single(part)) => Some(part.headers()),
+        MessageBody::Mime(Part::Multi(part)) => Some(part.headers()),
+        MessageBody::Raw(_) => None,
+    };
+    let signed_headers = dkim_canonicalize_all_headers(
         dkim_config.headers.iter().map(AsRef::as_ref),
         headers,
+        part_headers,
         dkim_config.canonicalization.header,
     );
     let canonicalized_dkim_header = dkim_canonicalize_headers(
